@@ -6,6 +6,7 @@ open Pyrealb.C11
 #print axioms link_confluent_levels_refuted
 #print axioms link_confluent_partial
 #print axioms link_confluent_levels_partial
+#print axioms link_confluent_headed
 #print axioms typ_merge_order_free_holds
 #print axioms typ_split_equiv_holds
 #print axioms typ_later_wins_holds
